@@ -281,4 +281,34 @@ theorem newLocation_total (b : Bytes) (p : Nat) (hp : p ≤ b.length) : (newLoca
 /-- non-vacuity: end-of-file position right after a CRLF, where end-1 meets begin -/
 example : newLocation (strBytes "a\r\n\r\n") 5 = some ⟨5, 3, 1, []⟩ := by decide +kernel
 
+/-! ### Small facts: the new-line symbol is LF or CR; lines and columns start at 1 -/
+
+theorem newLineSymbolAux_mem (b : Bytes) (nl : UInt8) (f : Bool) (h : nl = 10 ∨ nl = 13) :
+    newLineSymbolAux b nl f = 10 ∨ newLineSymbolAux b nl f = 13 := by
+  induction b generalizing nl f with
+  | nil => simpa [newLineSymbolAux] using h
+  | cons c rest ih =>
+    simp only [newLineSymbolAux]
+    split
+    · rename_i hc
+      exact ih c true (by simpa using hc)
+    · split
+      · exact h
+      · exact ih nl f h
+
+/-- the new-line symbol of a file is LF or CR -/
+theorem newLineSymbol_mem (b : Bytes) : newLineSymbol b = 10 ∨ newLineSymbol b = 13 :=
+  newLineSymbolAux_mem b 10 false (Or.inl rfl)
+
+/-- line and column of every position of a non-empty file, end of file included, are at least 1 -/
+theorem lineAndColumnEof_pos (b : Bytes) (hb : b ≠ []) (p : Nat) (hp : p ≤ b.length) :
+    1 ≤ (lineAndColumnEof b p).1 ∧ 1 ≤ (lineAndColumnEof b p).2 := by
+  by_cases h : p < b.length
+  · rw [lineAndColumnEof_inside b p h]
+    simp [specLine, specCol]
+  · have : p = b.length := by omega
+    subst this
+    rw [lineAndColumnEof_end b hb]
+    simp [specLine, specCol]
+
 end JsightVerif.Props.C07
